@@ -87,6 +87,8 @@ type runSpec struct {
 	// FailWrite > 0: the run's FailWrite-th pwrite64 of every thread fails with EIO (strace fault injection): a
 	// transient write error of the disk under the plot files
 	FailWrite int `json:"fail_nth_pwrite,omitempty"`
+	// ResumeInProcess: after the graceful stop of this run has ended Plot(), Plot() is called again on the same object
+	ResumeInProcess bool `json:"resume_in_process,omitempty"`
 }
 
 type caseSpec struct {
@@ -328,8 +330,9 @@ func buildCases(seed int64, thorough bool) []caseSpec {
 			pt, n = "plot.B.windowStart", nB
 		}
 		after := pickOther(r, cfgs, &before, false)
-		add(caseSpec{Family: "stop-late", BL: bl, Key: r.Intn(nKeys), Runs: []runSpec{
-			rsOf(before, &intr{Kind: "stop-late", Point: pt, Occ: 1 + r.Intn(n), DelayUs: 20 + r.Intn(1200)}), rsOf(after, nil)}})
+		first := rsOf(before, &intr{Kind: "stop-late", Point: pt, Occ: 1 + r.Intn(n), DelayUs: 20 + r.Intn(1200)})
+		first.ResumeInProcess = i%2 == 0 // the keeper's Stop followed by Plot: same object, no reopen
+		add(caseSpec{Family: "stop-late", BL: bl, Key: r.Intn(nKeys), Runs: []runSpec{first, rsOf(after, nil)}})
 	}
 	// family "repeated": 2..4 interruptions in a row, each resume with another window size
 	for i := 0; i < nRep; i++ {
@@ -421,6 +424,7 @@ func buildCases(seed int64, thorough bool) []caseSpec {
 		nth := 3 + r.Intn(lim) // (the first two writes create the two files)
 		fr := rsOf(c, nil)
 		fr.FailWrite = nth
+		fr.ResumeInProcess = i%2 == 0 // the failed plot is tried again on the same object
 		add(caseSpec{Family: "write-fault", BL: bl, Key: r.Intn(nKeys), Runs: []runSpec{fr, rsOf(pickOther(r, cfgs, &c, false), nil)}})
 	}
 	// family "near-end": a graceful stop in the last pairs of pass B of a table big enough that what is missing is
@@ -881,7 +885,7 @@ func execCase(cx *ctx, cs *caseSpec) {
 		evFile := filepath.Join(dir, fmt.Sprintf("events%d.jsonl", k))
 		specFile := filepath.Join(dir, fmt.Sprintf("spec%d.json", k))
 		outFile := filepath.Join(dir, fmt.Sprintf("out%d.txt", k))
-		sp := childSpec{Dir: plotDir, Ordinal: int64(cs.Key), PrivHex: cs.PrivHex, BL: bl, CapA: r.CapA, CapB: r.CapB, Intr: r.Intr,
+		sp := childSpec{Dir: plotDir, Ordinal: int64(cs.Key), PrivHex: cs.PrivHex, BL: bl, CapA: r.CapA, CapB: r.CapB, Intr: r.Intr, ResumeInProcess: r.ResumeInProcess,
 			Events: evFile, LogDir: filepath.Join(dir, "log"), FullBound: bl <= fullBoundMaxBL}
 		sb, _ := json.Marshal(sp)
 		os.WriteFile(specFile, sb, 0o644)
